@@ -387,6 +387,11 @@ class SqliteIndex(Index):
         if self.scaled > query_mh.scaled:
             query_mh = query_mh.downsample(scaled=self.scaled)
 
+        # nothing left of the query at this resolution: nothing can match (and
+        # _get_matching_sketches would take max() of no hashes)
+        if not query_mh:
+            return
+
         picklist = None
         if self.manifest.selection_dict:
             picklist = self.manifest.selection_dict.get("picklist")
